@@ -274,16 +274,19 @@ class World:
         exec(src, d)
         return d["_f"]
 
-    def import_fn(self, ctx, names, cid):
+    def import_fn(self, ctx, names, cid, ndefaults=0):
         """a module function with arbitrary parameter names, brought in through .py("file")"""
         d = ctx.mkdtemp()
         World._modn = getattr(World, "_modn", 0) + 1
         path = f"{d}/c09m_{World._modn}.py"
         plain = [n for n in names if n != "klong"]
         with open(path, "w") as fh:
-            fh.write(f"def f({', '.join(names)}):\n"
+            # defaulted trailing parameters must keep their defaults: they only show up in the log if they do not
+            dfl = [f"dflt{i}" for i in range(ndefaults)]
+            params = list(names) + [f"{q}='__dflt__'" for q in dfl]
+            fh.write(f"def f({', '.join(params)}):\n"
                      f"    return _rec({cid}, {'klong' in names}, {'klong' if 'klong' in names else 'None'}, "
-                     f"({''.join(n + ', ' for n in plain)}))\n")
+                     f"({''.join(n + ', ' for n in plain)}) + tuple(v for v in ({''.join(q + ', ' for q in dfl)}) if v != '__dflt__'))\n")
         if getattr(World, "_modn", 0) % 2:
             self.klong(f'.pyf("{path}";"f")')
         else:
@@ -336,7 +339,7 @@ def klit(u, i):
 
 FORMS = {0: ["direct", "at"], 1: ["direct", "each", "at"], 2: ["direct", "proj", "over", "at"],
          3: ["direct", "proj", "at"]}
-CONTEXTS = ["top", "nested", "ref", "globaly", "asarg"]      # asarg: the callable is PASSED to a Klong function and applied through its parameter x
+CONTEXTS = ["top", "nested", "ref", "globaly", "asarg", "wrapped"]     # wrapped: inside a Klong function called through klong['wf'](...)
 
 
 def _pick(rng, pool):
@@ -397,8 +400,8 @@ def gen_pycall(rng, sig, form, where):
             case["where"] = where = "top"           # x holds the callable: only y, z are left for arguments
         elif form == "proj":
             case["mask"] = [True, False]
-    case["frame"] = [rng.choice([901, 902, 903, 17, 0]) for _ in range(3)] if where in ("nested", "ref") else []
-    if case["frame"] and rng.random() < 0.5:
+    case["frame"] = [rng.choice([901, 902, 903, 17, 0]) for _ in range(3)] if where in ("nested", "ref", "wrapped") else []
+    if case["frame"] and rng.random() < 0.5 and where != "wrapped":
         # the enclosing function's x,y,z are universe values (empties included), not just integers
         pool = [i for i in ATOM_IDX if i in LIT_IDX] if case.get("atom") else LIT_IDX
         case["frame_u"] = [_pick(rng, pool) for _ in range(3)]
@@ -432,8 +435,8 @@ def run_pycall(ctx, drv, case):
     for j, (dsig, pos, dk) in enumerate(decoys):
         if pos == "before":
             klong[f"d{j}"] = w.make(tuple(dsig), 2 + j, dk)
-    if case.get("imported"):
-        w.import_fn(ctx, case["imported"], 1)
+    if case.get("imported") is not None:
+        w.import_fn(ctx, case["imported"], 1, case.get("imported_defaults", 0))
     else:
         klong["f"] = w.make(sig, 1, ckind)
     for j, (dsig, pos, dk) in enumerate(decoys):
@@ -495,12 +498,18 @@ def run_pycall(ctx, drv, case):
     # ---- real run
     w.log.clear()
     try:
-        result = klong(prog)
+        if where == "wrapped":
+            # the application sits in the body of a Klong function that Python calls through the wrapper
+            klong("wf::{x;y;z;" + body + "}")
+            case["program"] = "wf::{x;y;z;" + body + "}; klong['wf'](" + ", ".join(frame_txt) + ")"
+            result = klong["wf"](*frame)
+        else:
+            result = klong(prog)
         raised = None
     except Exception as e:
         result, raised = None, e
     # ---- oracle (no model)
-    key = f"pycall:{form}:{sig_class(sig)}" if not case.get("imported") else "import:positional"
+    key = f"pycall:{form}:{sig_class(sig)}" if case.get("imported") is None else "import:positional"
     if ckind != "plain" or decoys:
         key += f":{ckind}"
     rets = w.rets
@@ -1395,13 +1404,15 @@ def run(ctx):
         pool = ["a", "b", "c", "p", "q", "value", "y", "z"]
         for ar in range(4):
             for withk in (False, True):
-                for where in ("top", "nested", "ref", "asarg", "asarg"):
+                for where in ("top", "nested", "ref", "asarg", "asarg", "wrapped"):
                     for form in FORMS[ar]:
                         for _ in range(1 if quick else 5):
                             names = ctx.rng.sample(pool, ar)
                             sig = (("klong",) if withk else ()) + tuple("xyz"[:ar])
                             c = gen_pycall(ctx.rng, sig, form, where)
                             c["imported"] = (["klong"] if withk else []) + names
+                            if ar >= 1 and not withk and ctx.rng.random() < 0.5:
+                                c["imported_defaults"] = ctx.rng.choice([1, 2])     # def f(a, dflt0='..'): arity 1
                             c["decoys"] = []
                             _guarded(ctx, run_pycall, drv, c)
                             ctx.bump("imported")
